@@ -52,6 +52,15 @@ def build_region(repo):
     return list(fs.values())
 
 
+
+def _cache_func(repo):
+    """load_theory_cache with conditions that were given a name read at their tests (`up_to_date = 'timestamp' in cache and ..; if up_to_date:`)"""
+    from ..cfg import inline_named_conditions
+    from ..normalize import as_func
+    f = repo.func(BASIC, 'load_theory_cache')
+    return as_func(f, inline_named_conditions(f.node))
+
+
 def rule_l1(repo):
     res = RuleResult('C12.L1', 'a function-level import reachable while a theory is being built cannot replace the current theory', floor=8)
     swappers = swapper_modules(repo)
@@ -102,7 +111,7 @@ def rule_l1(repo):
 
 def rule_l2(repo):
     res = RuleResult('C12.L2', 'the timestamp that marks a theory cache valid is written after everything that can fail', floor=1)
-    f = repo.func(BASIC, 'load_theory_cache')
+    f = _cache_func(repo)
     cfg = cfg_of(f.node)
     marks = [n for n in cfg.stmt_nodes(ast.Assign) if any(
         isinstance(t, ast.Subscript) and isinstance(t.slice, ast.Constant) and t.slice.value == 'timestamp' for t in n.ast.targets)]
@@ -320,7 +329,7 @@ def rule_l6(repo):
 
 def rule_l7(repo):
     res = RuleResult('C12.L7', 'when a changed theory file is re-read, its list of imports is taken from the file as well', floor=1)
-    f = repo.func(BASIC, 'load_theory_cache')
+    f = _cache_func(repo)
     cfg = cfg_of(f.node)
     from ..flow import flow_of
     flow = flow_of(f.node)
@@ -401,7 +410,7 @@ def rule_l9(repo):
     *equal* the current one.  An ordering test (`<=`) also accepts a file that was replaced by an older revision
     (restored backup, rsync -t), which is then never re-read in this process."""
     res = RuleResult('C12.L9', 'a cached theory is reused only when the recorded timestamp equals the file\'s', floor=1)
-    f = repo.func(BASIC, 'load_theory_cache')
+    f = _cache_func(repo)
     cfg = cfg_of(f.node)
     tests = [t for t in cfg.test_nodes() if compare_parts(t.ast) and "'timestamp'" in src(t.ast, 200) and
              not (compare_parts(t.ast)[0] in (ast.In, ast.NotIn))]
